@@ -147,6 +147,40 @@ func genC15Ticket() {
 		l.p("def %sTypes : List Nat := [%s]", fn, strings.Join(typs, ", "))
 		l.p("def %sKinds : List String := %s", fn, leanStrList(kinds))
 	}
+	// codec.go DecodeString: the conditions of the `if`s that return the
+	// prefix / checksum errors, as written in the source
+	prefixCond, checksumCond := "", ""
+	if fd := findFunc(files, "DecodeString"); fd == nil {
+		fail("sidecar.DecodeString not found")
+	} else {
+		ast.Inspect(fd.Body, func(n ast.Node) bool {
+			is, ok := n.(*ast.IfStmt)
+			if !ok {
+				return true
+			}
+			body := ""
+			for _, st := range is.Body.List {
+				if rs, ok := st.(*ast.ReturnStmt); ok {
+					for _, e := range rs.Results {
+						body += exprString(e)
+					}
+				}
+			}
+			switch {
+			case strings.Contains(body, "invalid prefix") && !strings.Contains(exprString(is.Cond), "len("):
+				prefixCond = exprString(is.Cond)
+			case strings.Contains(body, "checksum"):
+				checksumCond = exprString(is.Cond)
+			}
+			return true
+		})
+		if prefixCond == "" || checksumCond == "" {
+			fail("DecodeString: prefix / checksum comparison not found")
+		}
+	}
+	l.p("def decodeStringPrefixCond : String := %q", prefixCond)
+	l.p("def decodeStringChecksumCond : String := %q", checksumCond)
+
 	for _, fn := range []string{"DeserializeTicket", "decodeBytes"} {
 		fd := findFunc(files, fn)
 		if fd == nil {
